@@ -2,6 +2,8 @@ import PhyVerif.Driver.Json
 import PhyVerif.Driver.Rat
 import PhyVerif.Model.C15
 import PhyVerif.Model.C15b
+import PhyVerif.Model.C15c
+import PhyVerif.Model.Fl
 import PhyVerif.Spec.C15
 namespace PhyVerif.Driver
 open Lean PhyVerif PhyVerif.C15
@@ -44,6 +46,37 @@ def runC15 (op : String) (j : Json) : R Json := do
     pure (Json.mkObj [("model", jOpt j3 (correlogramsQ times sc ids rate bin window sym)),
                       ("samples", jInts samples), ("binsize", jInt bs), ("winsize", jInt ws),
                       ("ids", jNats idl), ("model_eq_spec", specEq)])
+  | "ccg_fl" =>
+    -- the whole call on DOUBLES (exact rational values of the floats handed to the real code): every float
+    -- operation of `correlograms` = exact operation + `Fl.roundDouble`; loop on the count array; symmetrisation
+    let times ← getRats j "times"; let sc ← getInts j "sc"
+    let ids ← if hasFld j "ids" then some <$> getNats j "ids" else pure none
+    let rate ← fld j "rate" >>= asRat; let bin ← fld j "bin_size" >>= asRat; let window ← fld j "window" >>= asRat
+    let sym ← getBool j "sym"
+    -- the float products once; `correlogramsFl_as_run` (Props/C15.lean): this is `samplesOfFl` / `correlogramsFl`
+    let prods := prodsFl rate times
+    let samples := prods.map truncInt
+    let bs := binsizeOfFl rate bin; let ws := winsizeBinsFl window bin
+    let half := (ws / 2).toNat
+    let idl := idsOr sc ids
+    let specEq := if hasFld j "spec" then
+        Json.bool (correlogramsArr samples sc idl bs ws == some (specCcg samples sc idl bs half) &&
+                   correlograms samples sc idl bs half == correlogramsArr samples sc idl bs ws)
+      else Json.null
+    -- do the exact-rational conversions of Model/C15b give the same integers?  (tally only)
+    let qSame := samplesOf rate times == samples && binsizeOf rate bin == bs && winsizeBins window bin == ws
+    pure (Json.mkObj [("model", jOpt j3 (correlogramsOfInts samples bs ws times sc ids rate sym)),
+                      ("samples", jInts samples), ("binsize", jInt bs), ("winsize", jInt ws),
+                      ("ids", jNats idl), ("model_eq_spec", specEq),
+                      ("fl_dom", Json.bool (decide (FlDom times rate bin window))),
+                      ("on_grid", Json.bool (prods.all fun x => x.den == 1)),
+                      ("clipped", Json.bool (clipped bin window)),
+                      ("q_same", Json.bool qSame)])
+  | "fl" =>
+    -- `Fl.roundDouble` on a list of exact rationals; `inrange` = the binary64 result is this one (`Fl.InRange`)
+    let xs ← getRats j "xs"
+    pure (Json.mkObj [("model", jRats (xs.map Fl.roundDouble)),
+                      ("inrange", Json.arr (xs.map fun x => Json.bool (decide (Fl.InRange x))).toArray)])
   | "firing_q" =>
     let sc ← getInts j "sc"
     let ids ← if hasFld j "ids" then some <$> getNats j "ids" else pure none
